@@ -325,7 +325,19 @@ func runC08(c *fw.Ctx) {
 					// end to end: INCLUDE <name> from p/q/root.jst
 					root := filepath.Join(proj, "root.jst")
 					os.WriteFile(root, []byte("JSIGHT 0.3\nINCLUDE "+name+"\n"), 0o644)
+					// a name the sentence rejects is rejected even when a file of exactly that name is
+					// there (a backslash is an ordinary byte of a file name on this system)
+					made := ""
+					if sent && !strings.Contains(name, "/") && name != "." && name != ".." {
+						made = filepath.Join(proj, name)
+						if os.WriteFile(made, []byte("TYPE @literal any\n"), 0o644) != nil {
+							made = ""
+						}
+					}
 					o := runPath(root, opt)
+					if made != "" {
+						os.Remove(made)
+					}
 					switch {
 					case o.Crashed():
 						c.Count("skipped_crash", 1)
